@@ -284,7 +284,7 @@ func cmdPrompt(args []string) int {
 	r := newRng(c.seed)
 	kinds := []string{"producer-error", "producer-crash", "producer-deploy-fail", "needs-crashed-of-succeeding-step",
 		"needs-closed-of-succeeding-step", "needs-deploy-failed-of-succeeding-step", "wait-optional-on-crashed-of-succeeding-step",
-		"waits-for-crashed-stage-of-succeeding-step"}
+		"waits-for-crashed-stage-of-succeeding-step", "output-expression-fails-at-run-time", "step-input-expression-fails-at-run-time"}
 	for i := 0; i < c.n; i++ {
 		cr := r.fork()
 		if i < c.skip {
@@ -320,6 +320,16 @@ func cmdPrompt(args []string) int {
 			out.put("v", expr("$.steps.a.closed.result"))
 		case "needs-deploy-failed-of-succeeding-step":
 			out.put("v", expr("$.steps.a.deploy_failed.error"))
+		case "output-expression-fails-at-run-time":
+			// the only output evaluates an expression that fails on the value step a produced: the run has to end with that
+			// error at once, whatever the unrelated never-ending step does
+			out.put("v", expr("stringToInt($.steps.a.outputs.success.s)"))
+		case "step-input-expression-fails-at-run-time":
+			// the same for the input of the only producer of the output
+			wf.Steps = append(wf.Steps, AStep{ID: "c", Kind: "plugin", PlugStep: "op", Src: "c",
+				Fields: map[string]AIn{"input": amap("i", expr("stringToInt($.steps.a.outputs.success.s)"))}})
+			beh["c"] = Behaviour{Outcome: "success"}
+			out.put("v", expr("$.steps.c.outputs.success.s"))
 		case "waits-for-crashed-stage-of-succeeding-step":
 			// the only producer of the output waits for a STAGE (not an output) that step a, which succeeds, never goes
 			// through: once a has completed, that stage node is settled as impossible and so is everything behind it
